@@ -1,0 +1,87 @@
+//! Verification hooks (compiled only with `--cfg quinn_rs_quinn_verif`).
+//!
+//! Each submodule interprets integer-encoded operation sequences against one real component
+//! and returns integer-encoded observations. Nothing here is compiled without the cfg flag.
+#![allow(missing_docs, dead_code, unused_imports, unreachable_pub, clippy::all)]
+
+pub(crate) mod assembler;
+pub(crate) mod send_buffer;
+pub(crate) mod dedup;
+pub(crate) mod pending_acks;
+pub(crate) mod sent_packets;
+pub(crate) mod mtud;
+pub(crate) mod datagrams;
+pub(crate) mod paths;
+pub(crate) mod cid_state;
+pub(crate) mod timer;
+pub(crate) mod ack_frequency;
+pub(crate) mod pacing;
+pub(crate) mod probes;
+pub(crate) mod recovery;
+
+/// One operation = opcode followed by integer arguments.
+pub type Ops = [Vec<i128>];
+/// One observation per operation.
+pub type Outs = Vec<Vec<i128>>;
+
+pub(crate) fn run(comp: &str, ops: &Ops) -> Option<Outs> {
+    if let Some(o) = assembler::run(comp, ops) {
+        return Some(o);
+    }
+    if let Some(o) = send_buffer::run(comp, ops) {
+        return Some(o);
+    }
+    if let Some(o) = dedup::run(comp, ops) {
+        return Some(o);
+    }
+    if let Some(o) = pending_acks::run(comp, ops) {
+        return Some(o);
+    }
+    if let Some(o) = sent_packets::run(comp, ops) {
+        return Some(o);
+    }
+    if let Some(o) = mtud::run(comp, ops) {
+        return Some(o);
+    }
+    if let Some(o) = datagrams::run(comp, ops) {
+        return Some(o);
+    }
+    if let Some(o) = paths::run(comp, ops) {
+        return Some(o);
+    }
+    if let Some(o) = cid_state::run(comp, ops) {
+        return Some(o);
+    }
+    if let Some(o) = timer::run(comp, ops) {
+        return Some(o);
+    }
+    if let Some(o) = ack_frequency::run(comp, ops) {
+        return Some(o);
+    }
+    if let Some(o) = pacing::run(comp, ops) {
+        return Some(o);
+    }
+    if let Some(o) = probes::run(comp, ops) {
+        return Some(o);
+    }
+    if let Some(o) = recovery::run(comp, ops) {
+        return Some(o);
+    }
+    if let Some(o) = super::streams::verif_hooks::run(comp, ops) {
+        return Some(o);
+    }
+    None
+}
+
+/// Constants private to `connection` and its children, for `coq/gen/Constants.v`.
+pub(crate) fn constants() -> Vec<(&'static str, i128)> {
+    let mut v: Vec<(&'static str, i128)> = vec![
+        ("MAX_BACKOFF_EXPONENT", super::MAX_BACKOFF_EXPONENT as i128),
+        ("MIN_PACKET_SPACE", super::MIN_PACKET_SPACE as i128),
+        ("KEY_UPDATE_MARGIN", super::KEY_UPDATE_MARGIN as i128),
+    ];
+    v.extend(dedup::constants());
+    v.extend(mtud::constants());
+    v.extend(pending_acks::constants());
+    v
+}
